@@ -8,7 +8,9 @@ import (
 	"fmt"
 	"math/rand"
 	"reflect"
+	"runtime"
 	"sort"
+	"strings"
 	"sync"
 	"sync/atomic"
 	"testing"
@@ -267,6 +269,7 @@ type c15Obs struct {
 	Yields, Delays                             int64
 	Viol                                       []c15Viol
 	Inconclusive                               string
+	Hang                                       string // stack of a caller blocked inside Ask for minutes
 }
 
 type c15Viol struct {
@@ -374,6 +377,26 @@ func c15SiteNames(ids []int) []string {
 	}
 	sort.Strings(out)
 	return out
+}
+
+// c15StuckInAsk returns the stack of a goroutine that the runtime reports as blocked
+// for minutes ("[select, 2 minutes]") with an Ask frame on its stack, or "".
+func c15StuckInAsk() string {
+	buf := make([]byte, 8<<20)
+	n := runtime.Stack(buf, true)
+	for _, g := range strings.Split(string(buf[:n]), "\n\n") {
+		head, _, _ := strings.Cut(g, "\n")
+		if !strings.Contains(head, "minutes]") {
+			continue
+		}
+		if strings.Contains(g, "actor.(*PID).Ask(") || strings.Contains(g, "actor.Ask(") {
+			if len(g) > 3000 {
+				g = g[:3000]
+			}
+			return g
+		}
+	}
+	return ""
 }
 
 // c15Impl names the implementation an API goes through (the signature's key fact):
@@ -655,17 +678,24 @@ func c15RunCase(t *testing.T, k c15Knobs, seed int64) c15Obs {
 	select {
 	case <-callersDone:
 	case <-time.After(120 * time.Second):
-		obs.Inconclusive = "callers did not finish within 120s"
+		// every call has a timeout <= 1 s. A caller that is, by the runtime's own
+		// account, blocked for minutes inside Ask has not returned a reply or an error:
+		// structural (the goroutine is not runnable), not a matter of load
+		if st := c15StuckInAsk(); st != "" {
+			obs.Hang = st
+		} else {
+			obs.Inconclusive = "callers did not finish within 120s"
+		}
 	}
 	close(stopBg)
 	bgWG.Wait()
-	if s, ok := stuck.Load().(string); ok && obs.Inconclusive == "" {
+	if s, ok := stuck.Load().(string); ok && obs.Inconclusive == "" && obs.Hang == "" {
 		obs.Inconclusive = s
 	}
 
 	// quiescence: the mailboxes are FIFO, so when a marker is answered every earlier
 	// request of that responder has been handled (late replies included)
-	if obs.Inconclusive == "" {
+	if obs.Inconclusive == "" && obs.Hang == "" {
 		for i, rp := range responders {
 			mtok := -1 - c15TokenCtr.Add(1)
 			rep, err := Ask(ctx, rp, &c15Req{Token: mtok, Marker: true}, 60*time.Second)
@@ -686,7 +716,7 @@ func c15RunCase(t *testing.T, k c15Knobs, seed int64) c15Obs {
 		close(park.gate)
 	}
 	obs.BgTells = bgSent.Load()
-	if obs.Inconclusive != "" {
+	if obs.Inconclusive != "" || obs.Hang != "" {
 		return obs
 	}
 
@@ -890,6 +920,15 @@ func TestVerif_C15(t *testing.T) {
 		k := c15GenKnobs(rng)
 		seed := rng.Int63()
 		obs := c15RunCase(t, k, seed)
+		if obs.Hang != "" {
+			impl := "PID.Ask"
+			if !strings.Contains(obs.Hang, "actor.(*PID).Ask(") {
+				impl = "api.Ask"
+			}
+			r.Violation("ask-never-returned:"+impl, map[string]any{"knobs": k.String(), "seed": seed, "hot_sites": obs.HotSites, "blocked_goroutine": obs.Hang})
+			// callers are stuck for good: the remaining cases of this batch are not run
+			break
+		}
 		if obs.Inconclusive != "" {
 			r.Inconclusive("%s (%s seed %d)", obs.Inconclusive, k.String(), seed)
 			continue
